@@ -1349,6 +1349,11 @@ func (run *simRun) probe(name string, args []interface{}) {
 			if ni := n.inc; ni != nil && !ni.dead && ni.r != nil && ni.r.storage == st && ni.acked > st.snaps.index {
 				ni.acked, ni.ackedTerm = st.snaps.index, st.snaps.term
 			}
+			// a fault placed where it matters: die while the log is being replaced by the snapshot
+			if ni := n.inc; ni != nil && !ni.dead && ni.r != nil && ni.r.storage == st && run.phase == "chaos" && run.prof.Crash > 0 && ni.crashAtIO == 0 && run.tape.Chance(rt.StDisk, run.prof.Crash, 400) {
+				ni.crashAtIO = 1 + run.tape.Choose(rt.StDisk, 12)
+				run.fault("crash_armed_at_log_reset")
+			}
 		}
 	case "storage.removeGTE:enter":
 		// a leader made this node drop a conflicting suffix: what it had acknowledged
@@ -1700,6 +1705,13 @@ func (run *simRun) converged() (bool, string) {
 	if run.doneClients < len(run.clients) {
 		return false, "clients_still_running"
 	}
+	// membership changes complete too, and without the help of further writes: the clients have
+	// stopped, and the probe below is submitted only once the configuration is stable
+	if l.probeOp == nil {
+		if why := run.pendingActions(ldr); why != "" {
+			return false, why
+		}
+	}
 	if l.probeOp == nil || (l.probeOp.Outcome != outPending && l.probeOp.Outcome != outOK) {
 		// submit a fresh update through an ordinary client
 		op := &opRec{}
@@ -1736,6 +1748,28 @@ func (run *simRun) converged() (bool, string) {
 		}
 	}
 	return true, ""
+}
+
+// pendingActions: a promotion, demotion or removal that the leader's latest configuration still
+// carries although the node concerned is up (and has not lost its disk). An uncommitted
+// configuration is pending as well.
+func (run *simRun) pendingActions(ldr *nodeInc) string {
+	r := ldr.r
+	if !r.configs.IsCommitted() {
+		return "config_uncommitted"
+	}
+	for id, n := range r.configs.Latest.Nodes {
+		if n.Action == None {
+			continue
+		}
+		t := run.node(id)
+		if t == nil || !t.inc.live() || t.wiped > 0 {
+			continue // down, stopped or reported faulty: the action waits for it legitimately
+		}
+		run.reach("pending_action_waited_for")
+		return "pending_action"
+	}
+	return ""
 }
 
 func (run *simRun) finalChecks() {
